@@ -231,6 +231,34 @@ class Module:
             return
         d = self.sidecar['definition']
         nvar = len(d['variants'])
+        # G-HISTORY (observation of the build step, C12): the variants of the definition are the
+        # bookkeeping of the request history: previous − removed + added, no variant for an idle close
+        hist = self.sidecar.get('history') or []
+        live, pending_add, pending_rm, expect, first = [], [], [], [], True
+        for s in hist:
+            if s['op'] == 'add':
+                pending_add.append(s['name'])
+            elif s['op'] == 'remove':
+                if s['name'] in pending_add:
+                    pending_add.remove(s['name'])
+                else:
+                    pending_rm.append(s['name'])
+            elif s['op'] == 'close':
+                if first or pending_add or pending_rm:
+                    live = [n for n in live if n not in pending_rm] + pending_add
+                    expect.append(sorted(live))
+                first = False
+                pending_add, pending_rm = [], []
+        names = {x['id']: x['name'] for x in d['data']}
+        got = [sorted(names[i] for i in var['data']) for var in d['variants']]
+        self.stats['history_variants'] += len(expect)
+        if got != expect:
+            k = next((i for i, (a, b_) in enumerate(zip(got, expect)) if a != b_), min(len(got), len(expect)))
+            self.add(['C12'], 'G-HISTORY', 'variant %d' % k,
+                     'the definition built for this request history has variants %s, the history means %s (previous minus removed plus added; no variant for a close without pending change)' % (got, expect), key='history')
+        ids = [x['id'] for x in d['data']]
+        if ids != list(range(len(ids))):
+            self.add(['C12'], 'G-HISTORY', None, 'datum ids are not 0..n-1 in creation order: %s' % ids, key='ids')
         if sorted(self.records) != list(range(nvar)):
             self.add(['C05', 'C13'], 'G-ACC', None, 'definition has %d variants, module has records %s' % (nvar, sorted(self.records)))
         for v in sorted(self.records):
